@@ -419,6 +419,11 @@ class _Shutil:
     copy = copyfile
     copy2 = copyfile
 
+    @staticmethod
+    def copyfileobj(fsrc, fdst, length=0):
+        # everything from the source's current position to its end
+        fdst.write(fsrc.read())
+
 
 shutil = _Shutil()
 
@@ -434,7 +439,7 @@ class SymFile:
         self.closed = False
         self.pos = 0
         self.readable_ = "r" in mode or "+" in mode
-        self.writable_ = "w" in mode or "+" in mode or "a" in mode
+        self.writable_ = "w" in mode or "+" in mode or "a" in mode or "x" in mode
         if "r" in mode and not data.exists:
             raise FileNotFoundError(f"[Errno 2] No such file or directory: '{data.name}'")
         if "w" in mode:
